@@ -10,8 +10,8 @@ def run(ctx):
     binp = ctx.go_build("limiter", allow_nowb=False)
     outd = os.path.join(ctx.out, "Limiter")
     os.makedirs(outd, exist_ok=True)
-    n = 400 if quick else 6000
-    rr = subprocess.run([binp, "-out", outd, "-n", str(n), "-seed", str(ctx.seed), "-churn", "1000" if quick else "10000"], capture_output=True, text=True, env=GOENV, timeout=3000)
+    n = 400 if quick else 3000
+    rr = subprocess.run([binp, "-out", outd, "-n", str(n), "-seed", str(ctx.seed), "-churn", "1000" if quick else "4000"], capture_output=True, text=True, env=GOENV, timeout=3000)
     tf = os.path.join(outd, "limiter_traces.ndjson")
     if rr.returncode != 0:
         cur = open(os.path.join(outd, "limiter_current.json")).read() if os.path.exists(os.path.join(outd, "limiter_current.json")) else "?"
